@@ -1371,3 +1371,39 @@ def clause_getters_agree(ctx, rule):
                        bad[0][0][K1], bad[0][0][K2], bad[0][0][K3],
                        bad[0][0][K4], bad[0][1], bad[0][2]) if bad
                        else ('',) * 6)), ctx.loc(f))
+
+
+def repeated_result_refused(ctx, rule):
+    """RegularAction.complete: a result for an action that is already
+    completed - in *any* completed state - ends in an exception (the
+    transaction of the delivery rolls back), never in a quiet return.
+    action_handler.on_action_complete cannot tell a refused duplicate from
+    an accepted result and runs the task-level completion again after a
+    normal return."""
+    prog, sd = ctx.prog, ctx.sd
+    ra = prog.func('mistral.engine.actions.RegularAction.complete')
+    racfg = ctx.cfg(ra)
+    done = sd.pred_set('is_completed')
+    # ghost: the state the action had when the result arrived
+    INr, kr = sd.analyze(racfg, ra, [('self.action_ex.state',
+                                      sd.state_domain)],
+                         kill=lambda c: (),
+                         ghost={'self.action_ex.state'})
+    refused = set()
+    for x in racfg.nodes:
+        if x.kind == 'stmt' and isinstance(x.ast, ast.Raise) and \
+                x.ast.exc is not None:
+            refused |= sd.values_at(INr, kr, x, 'self.action_ex.state')
+    quiet = set()
+    for x in racfg.nodes:
+        if (x.kind == 'stmt' and isinstance(x.ast, ast.Return)) or \
+                x is racfg.exit:
+            quiet |= sd.values_at(INr, kr, x, 'self.action_ex.state') & \
+                set(done)
+    rule.check(set(done) <= refused and not quiet,
+               ctx.construct(ra, extra='every repeated result is refused'),
+               'a result for an action that is already %s is not refused '
+               'with an error (quiet return for %s): the task-level '
+               'completion runs a second time for it'
+               % (sorted(set(done) - refused) or sorted(quiet),
+                  sorted(quiet)), ctx.loc(ra))
